@@ -35,8 +35,8 @@ def run(ctx):
             sinks = list(node.args)
         elif isinstance(node, ast.Compare) and any(isinstance(o, (ast.Lt, ast.LtE, ast.Gt, ast.GtE)) for o in node.ops):
             sinks = [node.left] + list(node.comparators)
-        elif isinstance(node, ast.BinOp) and isinstance(node.op, (ast.Add, ast.Sub, ast.Mult)) and not isinstance(node.left, (ast.Constant, ast.JoinedStr)) \
-                and not isinstance(node.right, (ast.Constant, ast.JoinedStr)):
+        elif isinstance(node, ast.BinOp) and isinstance(node.op, (ast.Sub, ast.FloorDiv, ast.Div, ast.Mod)):
+            # (string `+` / `*` are legitimate string operations; with a number they fail loudly - not the silent confusion of the clause)
             sinks = [node.left, node.right]
         for a in sinks:
             if isinstance(a, ast.Name) and a.id in names:
@@ -63,15 +63,38 @@ def run(ctx):
             ok = False
     ctx.ob("C37.D2-regex-matches-unpack", cname(init, None, "regex groups (flags, width, precision, conversion) match the unpacking"), ok,
            "" if ok else "the regex's groups and int_replacer's unpacking disagree", nontrivial=True, where=where(init, init.node))
-    br = [s for s in f.node.body if isinstance(s, ast.If) and A.norm(s.test) == "precision and width"]
-    ok = bool(br) and [A.norm(x) for x in br[0].body if not isinstance(x, ast.Expr)][:2] == ["flag_str = '0'", "precision_str = ''"]
-    ctx.ob("C37.D2-regex-matches-unpack", cname(f, None, "width and precision together -> zero padded, no precision part"), ok, "" if ok else "combined case changed", where=where(f, f.node))
-    rets = [s for s in f.node.body if isinstance(s, ast.Return)]
-    ok = bool(rets) and A.norm(rets[0].value) == "f'{{:{flag_str}{width_str}{precision_str}{type_char}}}'"
-    ctx.ob("C37.D2-regex-matches-unpack", cname(f, None, "result {:<flags><width><precision><conversion>}"), ok, "" if ok else "format assembly changed", where=where(f, f.node))
-    t = A.norm(f.node)
-    ok = "if '-' in flags:\n        flag_str = '<'" in t and "if '0' in flags:\n        flag_str += '0'" in t
-    ctx.ob("C37.D2-regex-matches-unpack", cname(f, None, "'-' -> '<', '0' -> '0'"), ok, "" if ok else "flag mapping changed", where=where(f, f.node))
+    # the specifier int_replacer builds, evaluated for every set of flags and for width / precision present or absent (64 cases):
+    # {:<align><sign><zero><width><.precision><conversion>} and, when both width and precision are given, {:0<max of the two><conversion>}
+    import itertools
+    bad = None
+    n_cases = 0
+    for flags in itertools.product((True, False), repeat=4):
+        for has_w, has_p in itertools.product((True, False), repeat=2):
+            minus, plus, space, zero = flags
+            truth = {"'-' in flags": minus, "'+' in flags": plus, "' ' in flags": space, "'0' in flags": zero, "width": has_w, "precision": has_p}
+            got = q.eval_string_parts(q.specialise(A.body(f.node), truth), truth)
+            n_cases += 1
+            if has_w and has_p:
+                ok_case = got is not None and len(got) == 4 and got[0] == "{:0" and got[1] in (q.Sym("str(max(int(precision), int(width)))"), q.Sym("str(max(int(width), int(precision)))")) \
+                    and got[2] == q.Sym(names[3] if len(names) == 4 else "type_char") and got[3] == "}"
+            else:
+                want = ["{:" + ("<" if minus else "") + ("+" if plus else (" " if space else "")) + ("0" if zero else "")]
+                if has_w:
+                    want.append(q.Sym("width"))
+                if has_p:
+                    want += [".", q.Sym("precision")]
+                want += [q.Sym(names[3] if len(names) == 4 else "type_char"), "}"]
+                merged = []
+                for p_ in want:
+                    if not isinstance(p_, q.Sym) and merged and not isinstance(merged[-1], q.Sym):
+                        merged[-1] += p_
+                    else:
+                        merged.append(p_)
+                ok_case = got == merged
+            if not ok_case and bad is None:
+                bad = (dict(flags="".join(c for c, on in zip("-+ 0", flags) if on), width=has_w, precision=has_p), got)
+    ctx.ob("C37.D2-regex-matches-unpack", cname(f, None, f"the new-style specifier for all {n_cases} combinations of flags / width / precision"), bad is None,
+           "" if bad is None else f"for {bad[0]} the replacer builds {bad[1]}", nontrivial=True, where=where(f, f.node))
     gu = repo.func(CO, "MultipartRelatedConsolidator.get_datum_uri")
     ok = "self.template.format(indx)" in A.norm(gu.node)
     ctx.ob("C37.D2-regex-matches-unpack", cname(gu, None, "the template is expanded with the frame index"), ok, "" if ok else "expansion changed", where=where(gu, gu.node))
